@@ -21,7 +21,8 @@ RULE = ("A real Zeroconf with 1..3 services (TTL >= 10 s; loop-back delay of its
         "back transmissions: immediate (same instant), aggregated (+20..+500 ms), protected (>= sighting+1000 ms, <= arrival+"
         "1200 ms), TC (released 400..500 ms after the last packet, or at a non-TC packet). D1: every obligation is served in its "
         "window; D2: every multicast answer is justified by an obligation's window (so nothing is sent early, during a TC hold, "
-        "or although listed as known answer); D4: no record twice in one datagram. Trains also come back to back from one source "
+        "or although listed as known answer); D4: no record twice in one datagram; per shard the delays of lone-query answers must "
+        "spread over 20..120 ms (a random draw, not a constant). Trains also come back to back from one source "
         "(first completed by its final packet, second left to its timer). Distinct = (class, queue state, gap bucket, TC "
         "shape, loop-back delay) classes.")
 ASSUMPTIONS = ["service TTLs >= 10 s (below 4 s the QU rule and the one-second rule contradict each other)",
@@ -35,7 +36,7 @@ EPS = 1.0
 def floors(tier):
     q = tier == "quick"
     return {"c12.served": 20000 if q else 2000000, "c12.justified": 20000 if q else 2000000, "c12.no_duplicate": 20000 if q else 2000000,
-            "c12.additionals": 10000 if q else 1000000}
+            "c12.additionals": 10000 if q else 1000000, "c12.jitter": 8 if q else 32}
 
 
 def plan(tier, seed):
@@ -405,6 +406,15 @@ def analyse(res: Result, sim: simnet.Sim, sc: Dict[str, Any], model: ResponderMo
             viol("c12.served", "answer_not_sent_in_window", "%r owed (%s, %s) in [+%.0f, +%.0f] ms but multicast at %r" % (
                 o.rec, o.cls, o.why, o.serve_lo - T0, o.serve_hi - T0, when), cls=o.cls, tc=o.why != "-")
         res.cls("obl", o.cls, o.why, o.rec[0])
+    # ---- jitter sample: a lone ordinary query (nothing else pending, nothing protected) - the delay of its aggregated answer is
+    #      the library's random 20..120 ms draw; the samples of a shard are judged together in run_shard
+    if len(arrivals) == 1 and not arrivals[0].get("tc") and not arrivals[0].get("probe"):
+        for o in obligations:
+            if o.cls == "aggregated" and o.why == "-":
+                ts = [t for t, ident in answers_tx if ident == o.rec and t >= o.serve_lo - EPS]
+                if ts:
+                    JITTER.append(min(ts) - o.serve_lo)
+                break
     # ---- D2
     for t, ident in answers_tx:
         res.mon("c12.justified")
@@ -472,15 +482,38 @@ def gap_bucket(g: float) -> str:
     return ">1120"
 
 
+JITTER: List[float] = []
+
+
+def judge_jitter(res: Result, seed: int) -> None:
+    """'a random 20-120 ms': over a shard's lone-query samples the delays must spread over the interval, not sit at one value or
+    in a corner of it (uniform draws: the chance of 40 samples all above 60 ms is about 1e-9)."""
+    res.extra["jitter_samples"] = res.extra.get("jitter_samples", 0) + len(JITTER)
+    if len(JITTER) < 40:
+        res.obs("jitter_sample_too_small_to_judge")
+        return
+    res.mon("c12.jitter")
+    lo, hi, distinct = min(JITTER), max(JITTER), len({round(x) for x in JITTER})
+    if lo > 60.0 or hi < 80.0 or distinct < 12:
+        res.violation("c12.jitter", "delay_not_random_over_20_120ms", "%d lone-query answers were delayed by %.0f..%.0f ms (%d distinct values): not a random draw from 20..120 ms" % (
+            len(JITTER), lo, hi, distinct), {}, {"seed": seed, "jitter": True})
+    res.cls("jitter", "min<=%d" % (10 * int(lo // 10 + 1)), "max>=%d" % (10 * int(hi // 10)))
+
+
 def run_shard(spec):
     res = Result()
     rng = rng_for("c12", spec["seed"], spec["shard"])
+    del JITTER[:]
     for _ in range(spec["per"]):
         run_scenario(res, rng.randrange(1 << 30))
+    judge_jitter(res, spec["seed"])
     return res
 
 
 def replay(blob):
     res = Result()
+    if blob.get("jitter"):
+        # an aggregate over a whole shard: replayed by re-running the quick plan's first shard
+        return run_shard({"seed": blob["seed"], "shard": 0, "per": 1300, "tier": "quick"})
     run_scenario(res, blob["seed"])
     return res
